@@ -19,7 +19,7 @@ From SC Require Import Base.Prelude Gen.Units Traits.Str Traits.StrProofs
   Traits.ModeTrait Traits.ModeTraitProofs Traits.EnterLeave Traits.EnterLeaveProofs Traits.Meter Traits.MeterProofs
   Traits.Publication Traits.PublicationProofs Traits.Options Traits.OptionsProofs Traits.Store Traits.StoreProofs
   Traits.VendingStore Traits.VendingStoreProofs Traits.FanMask Traits.FanMaskProofs.
-From SC Require Import Msg.Msg Msg.Schema Msg.Path Masks.Get Traits.MeterMask Traits.MeterMaskProofs Traits.StockMask Traits.StockMaskProofs Traits.PubStore Traits.PubStoreProofs Traits.TraitPull Traits.TraitPullProofs.
+From SC Require Import Msg.Msg Msg.Schema Msg.Path Masks.Get Traits.MeterMask Traits.MeterMaskProofs Traits.StockMask Traits.StockMaskProofs Traits.PubStore Traits.PubStoreProofs Traits.TraitPull Traits.TraitPullProofs Traits.ModeMaskProofs.
 From Coq Require Import QArith.
 Local Open Scope string_scope.
 Local Open Scope Z_scope.
@@ -674,3 +674,13 @@ Example C20_nonvacuous_pull :
     [(MMRecord 7 9, 9); (MMUpdate (Some [["bogus"]]) (mkMM 1 None None), 10); (MMReset 12, 12)]
   = [(mkMM 0 (Some (5, 0)) (Some (5, 0)), 5); (mkMM 7 (Some (5, 0)) (Some (9, 0)), 9); (mkMM 0 (Some (12, 0)) (Some (12, 0)), 12)].
 Proof. vm_compute. reflexivity. Qed.
+
+(* ================= mode: the update masks of UpdateModeValues (absent / ["values"] / without paths) ================= *)
+Theorem C20_mode_update_masks : forall ms pre abs rel,
+  let value := fold_left (rel_adjust ms pre) rel abs in
+  (forall m, value <> [] -> afind m value = None -> afind m (mode_update ms pre abs rel 1) = afind m pre) /\
+  (value = [] -> mode_update ms pre abs rel 1 = []) /\
+  mode_update ms pre abs rel 2 = pre /\
+  mode_update ms pre abs rel 0 = value.
+Proof. exact mode_update_masks. Qed.
+Print Assumptions C20_mode_update_masks.
